@@ -22,8 +22,9 @@ from lib.core import Inconclusive, sh
 
 SPEC = "HashRing"
 
-MC_QUICK = [("ideal_q", 4), ("code_q", 2), ("wide", 1)]
-MC_THOROUGH = [("ideal_t", 4), ("code_t", 3), ("ideal_port_t", 3), ("code_port_t", 2), ("ideal_q", 2), ("code_q", 1), ("wide", 1)]
+MC_QUICK = [("ideal_q", 4), ("code_q", 2), ("code_port_t", 2), ("wide", 1)]
+MC_THOROUGH = [("ideal_t", 4), ("ideal_4h_t", 4), ("code_t", 3), ("ideal_port_t", 3), ("code_port_t", 2), ("ideal_q", 2),
+               ("code_q", 1), ("wide", 1)]
 # negative configurations: the named deviation must break the named invariant in the model
 MC_NEGATIVE = [("kf_collision", "InvRouting"), ("kf_removearg", "InvMember")]
 
@@ -167,7 +168,7 @@ def run(ctx):
     hists = load_ndjson(os.path.join(out, "hists.ndjson"))
     # end to end: scripted TCP servers, real ServantProxy, calls made with current.SetClientHash
     rc, so, se = sh([exe, "e2e", "-seed", str(ctx.seed), "-out", out, "-first-u", str(len(unis) + 1),
-                     "-first-h", str(len(hists) + 1), "-scenarios", str(ctx.pick(2, 10))], timeout=300, check=False)
+                     "-first-h", str(len(hists) + 1), "-scenarios", str(ctx.pick(3, 12))], timeout=300, check=False)
     if rc != 0:
         raise Inconclusive("end-to-end driver failed (%d):\n%s\n%s" % (rc, so[-2000:], se[-3000:]))
     e2e_meta = json.load(open(os.path.join(out, "e2e_meta.json")))
